@@ -542,4 +542,41 @@ def rule_task_handover(ctx):
            "drain or inserted into the injector", rep + pushes + ins)
 
 
+def rule_search_handover(ctx):
+    """the worker's search stage: the bucket popped from the injector is the one appended to the local queue (after waiting for room
+    for exactly that bucket), and the task returned by a successful steal is the one placed in the fast slot"""
+    P = ctx.prog
+    ws = [w for w in P.all_bodies() if w.name.startswith("executor::mt_executor::run_local_worker") and any(True for _ in w.calls(r"Injector::pop_bucket$"))]
+    if len(ws) != 1:
+        return ctx.missing("the worker body that pops buckets from the injector")
+    w = ws[0]
+    pops = list(w.calls(r"Injector::pop_bucket$"))
+    ext = list(w.calls(r"st3::fifo::Worker::extend$"))
+    lens = list(w.calls(r"ExactSizeIterator::len$"))
+    ok = len(pops) == 1 and len(ext) == 1
+
+    def from_pop(os_):
+        return bool(os_) and all(origin_proj_names(o)[0] == ("call", pops[0].b, pops[0].callee) and origin_proj_names(o)[1][:1] == [("d", "Some")] for o in os_)
+    if ok:
+        ok = from_pop(w.origins(ext[0].args()[1], ext[0])) and bool(lens) and all(from_pop(w.origins(l.args()[0], l)) for l in lens)
+        ok = ok and any(c.kind == "variant" and c.data[1] == {"Some"} for c in w.conditions(ext[0]))
+    ctx.ob("handover|popped-bucket-extends-local-queue", ok,
+           "the tasks of the popped bucket are appended to this worker's local queue, after waiting for room for that bucket's length", pops + ext + lens)
+    st = [(b, s) for b in P.family(w) for s in b.calls(r"Stealer::steal_and_pop$")]
+    rp = [(b, s) for b in P.family(w) for s in b.calls(r"^std::cell::Cell::replace$")]
+    ok = len(st) == 1 and len(rp) >= 1
+    good = False
+    for b, s in rp:
+        for o in b.origins(s.args()[1], s):
+            if o[0] == "agg" and o[4] == "Some":
+                a = Site(b, o[1], o[2])
+                to = b.origins(a.node["r"]["ops"][0], a)
+                # the closure given to Result::map receives (task, count): the task is component 0 of its argument
+                if to and all(origin_proj_names(x)[0] == ("arg", 2) and origin_proj_names(x)[1][:1] == [("f", "0")] for x in to):
+                    good = True
+    ctx.ob("handover|stolen-task-goes-to-fast-slot", ok and good,
+           "the task handed back by a successful steal_and_pop is stored in the fast slot (component 0 of the steal result)", [s for _, s in st + rp])
+
+
 RULES.append(("C04.r", "schedule_task hand-over conserves tasks (operand level)", rule_task_handover))
+RULES.append(("C04.s", "search stage: popped bucket and stolen task reach the worker's queues (operand level)", rule_search_handover))
